@@ -26,7 +26,7 @@ pub static PROP: Prop = Prop {
         "a DENY is accepted for an unauthenticated request only when the monitor's own list matcher says the client is blocked with action deny",
     ],
     profiles: Profiles::Ship,
-    cases: |t| t.pick(30_000, 600_000),
+    cases: |t| t.pick(60_000, 600_000),
     budget_s: |t| t.pick(45, 400),
     run,
     min_nontrivial: 500,
